@@ -99,7 +99,7 @@ def run(ctx):
                     diffs.append(f"abstract flag of {f['name']!r} is {f['abstract']!r}")
             if diffs:
                 r.oracle_fail("writer-output", req, "roundtrip:same-model", "; ".join(diffs[:4]))
-            for fail in fmt.graph_wf(cur):
+            for fail in fmt.graph_wf(cur, written=fmt.written_names(m)):
                 r.oracle_fail("writer-output", req, "graph:" + fail[0], fail[1])
             text = ret
             for cyc in range(2, 4):
